@@ -2406,12 +2406,25 @@ impl TxParticipant {
     }
 
     pub fn prepare(&self, request: PrepareRequest) -> PrepareVote {
-        // Use affected_key() for locking (logical keys)
-        let lock_keys: Vec<String> = request
+        // Logical keys (affected_key()): what the delta reports to the coordinator
+        let logical_keys: Vec<String> = request
             .operations
             .iter()
             .map(|op| op.affected_key().to_string())
             .collect();
+
+        // Lock the logical keys AND the storage keys this transaction captures an undo image of
+        // (storage_key()) or writes on commit (write_key()). Two transactions that reach the same
+        // storage key under different logical keys (Embed { key: "x" } and Put { key: "emb:x" })
+        // must not be prepared together: the abort of one would roll back the other's commit.
+        let mut lock_keys = logical_keys.clone();
+        for op in &request.operations {
+            for key in [op.storage_key(), op.write_key()] {
+                if !lock_keys.contains(&key) {
+                    lock_keys.push(key);
+                }
+            }
+        }
 
         tracing::debug!(
             tx_id = request.tx_id,
@@ -2448,7 +2461,7 @@ impl TxParticipant {
 
         let delta = DeltaVector::from_sparse(
             request.delta_embedding,
-            lock_keys.into_iter().collect(),
+            logical_keys.into_iter().collect(),
             request.tx_id,
         );
 
